@@ -119,7 +119,7 @@ fn plutus_source(st: &St, sid: u8, src: &J) -> csl::PlutusScriptSource {
 fn native_source(st: &St, k: u8, src: &J) -> csl::NativeScriptSource {
     match src.get("ref") {
         Some(u) => { let x = &st.env[&u.as_u64().unwrap()]; let ns = mk::pubkey_script(k); let mut s = csl::NativeScriptSource::new_ref_input(&ns.hash(), &x.input, csl::ScriptRef::new_native_script(&ns).to_unwrapped_bytes().len());
-                     let mut ks = csl::Ed25519KeyHashes::new(); ks.add(&mk::gkeyhash(k)); s.set_required_signers(&ks); s }
+                     let mut ks = csl::Ed25519KeyHashes::new(); for kk in mk::signers_of(k) { ks.add(&mk::gkeyhash(kk)); } s.set_required_signers(&ks); s }
         None => csl::NativeScriptSource::new(&mk::pubkey_script(k)),
     }
 }
@@ -187,6 +187,19 @@ fn apply(st: &mut St, op: &J) -> Result<Map<String, J>, csl::JsError> {
                 if let Some(r) = x.spec.get("ref_script") { o.set_script_ref(&script_ref_of(r)); }
                 st.inputs.add_regular_utxo(&csl::TransactionUnspentOutput::new(&x.input, &o))?; st.tb.set_inputs(&st.inputs);
             }
+            else if let Some(via) = op.get("via").and_then(|v| v.as_str()) {
+                // the older, kind-specific entry points: on the transaction builder itself ("tb": from then on the inputs builder of
+                // the harness is detached, as after a selecting call) or on the inputs builder
+                let kind = x.addr_spec["kind"].as_str().unwrap_or("ent");
+                let k = x.addr_spec["k"].as_u64().unwrap_or(1) as u8;
+                match (kind, via) {
+                    ("byron", "tb") => { st.selected = true; st.tb.add_bootstrap_input(&csl::ByronAddress::from_address(&x.addr).ok_or(csl::JsError::from_str("harness: not byron"))?, &x.input, &x.value); }
+                    ("byron", _) => { if st.selected { return Err(csl::JsError::from_str("harness: inputs builder detached")); } st.inputs.add_bootstrap_input(&csl::ByronAddress::from_address(&x.addr).ok_or(csl::JsError::from_str("harness: not byron"))?, &x.input, &x.value); st.tb.set_inputs(&st.inputs); }
+                    ("ent", "tb") | ("base", "tb") | ("ptr", "tb") => { st.selected = true; st.tb.add_key_input(&mk::gkeyhash(k), &x.input, &x.value); }
+                    ("ent", _) | ("base", _) | ("ptr", _) => { if st.selected { return Err(csl::JsError::from_str("harness: inputs builder detached")); } st.inputs.add_key_input(&mk::gkeyhash(k), &x.input, &x.value); st.tb.set_inputs(&st.inputs); }
+                    _ => return Err(csl::JsError::from_str("harness: legacy input entry point for a script-locked output is not expressible")),
+                }
+            }
             else if st.selected { st.tb.add_regular_input(&x.addr, &x.input, &x.value)?; }
             else { st.inputs.add_regular_input(&x.addr, &x.input, &x.value)?; st.tb.set_inputs(&st.inputs); }
             st.inputs_builder_signers.insert(u, owner_of(&x.addr_spec));
@@ -228,8 +241,10 @@ fn apply(st: &mut St, op: &J) -> Result<Map<String, J>, csl::JsError> {
             if st.selected {
                 if op["script"].get("ref").is_some() { return Err(csl::JsError::from_str("harness: native reference input after selection is not expressible")); }
                 st.tb.add_native_script_input(&mk::pubkey_script(k), &x.input, &x.value);
+            } else if op.get("utxo").and_then(|b| b.as_bool()) == Some(true) {
+                st.inputs.add_native_script_utxo(&csl::TransactionUnspentOutput::new(&x.input, &csl::TransactionOutput::new(&x.addr, &x.value)), &src)?; st.tb.set_inputs(&st.inputs);
             } else { st.inputs.add_native_script_input(&src, &x.input, &x.value); st.tb.set_inputs(&st.inputs); }
-            st.script_signers.push(k);
+            st.script_signers.extend(mk::signers_of(k));
         }
         "AddRefInput" => {
             let x = &st.env[&op["u"].as_u64().unwrap()];
@@ -315,7 +330,7 @@ fn apply(st: &mut St, op: &J) -> Result<Map<String, J>, csl::JsError> {
                     let mut c2 = c.clone();
                     c2["cred"] = json!({"t": 1, "hb": jbytes(&mk::pubkey_script(k).hash().to_bytes())});
                     cb.add_with_native_script(&mk::cert(&c2), &csl::NativeScriptSource::new(&mk::pubkey_script(k)))?;
-                    script_signers.push(k);
+                    script_signers.extend(mk::signers_of(k));
                     continue;
                 }
                 cb.add(&mk::cert(c))?;
@@ -343,7 +358,7 @@ fn apply(st: &mut St, op: &J) -> Result<Map<String, J>, csl::JsError> {
                     let k = nk.as_u64().unwrap() as u8;
                     let ra = csl::RewardAddress::new(w["net"].as_u64().unwrap_or(0) as u8, &csl::Credential::from_scripthash(&mk::pubkey_script(k).hash()));
                     wb.add_with_native_script(&ra, &bn_of(&w["amt_n"]), &csl::NativeScriptSource::new(&mk::pubkey_script(k)))?;
-                    signers.push(k);
+                    signers.extend(mk::signers_of(k));
                     continue;
                 }
                 let k = w["k"].as_u64().unwrap() as u8;
@@ -446,6 +461,91 @@ fn apply(st: &mut St, op: &J) -> Result<Map<String, J>, csl::JsError> {
         "SetCollateralReturnAndTotal" => st.tb.set_collateral_return_and_total(&output_of(op)?)?,
         "SetTotalCollateral" => st.tb.set_total_collateral(&bn_of(&op["n"])),
         "SetTotalCollateralAndReturn" => st.tb.set_total_collateral_and_return(&bn_of(&op["n"]), &mk::addr(&op["to"]))?,
+        // ---- the older mint entry points of the transaction builder (native policies only); they work on the builder's current MintBuilder
+        "AddMintAsset" | "AddMintAssetAndOutput" => {
+            let k = op["mp"].as_u64().unwrap() as u8;
+            let amt = if op["amt"]["neg"].as_bool().unwrap_or(false) { csl::Int::new_negative(&bn_of(&op["amt"]["mag_n"])) } else { csl::Int::new(&bn_of(&op["amt"]["mag_n"])) };
+            let an = csl::AssetName::new(get_bytes(&op["n"])).unwrap();
+            if name == "AddMintAsset" { st.tb.add_mint_asset(&mk::pubkey_script(k), &an, &amt)?; }
+            else {
+                let mut ob = csl::TransactionOutputBuilder::new().with_address(&baddr(&op["to"]));
+                if let Some(d) = op.get("datum") {
+                    if let Some(h) = d.get("hash") { ob = ob.with_data_hash(&csl::hash_plutus_data(&pdata(h.as_u64().unwrap()))); }
+                    if let Some(i) = d.get("inline") { ob = ob.with_plutus_data(&pdata(i.as_u64().unwrap())); }
+                }
+                if let Some(r) = op.get("ref_script") { ob = ob.with_script_ref(&csl::ScriptRef::new_native_script(&mk::pubkey_script(r.as_u64().unwrap() as u8))); }
+                let ab = ob.next()?;
+                match op.get("coin_n") { Some(c) => st.tb.add_mint_asset_and_output(&mk::pubkey_script(k), &an, &amt, &ab, &bn_of(c))?,
+                                         None => st.tb.add_mint_asset_and_output_min_required_coin(&mk::pubkey_script(k), &an, &amt, &ab)? }
+            }
+            if !st.mint_signers.contains(&k) { st.mint_signers.push(k); }
+        }
+        "SetMintAsset" => {
+            let k = op["mp"].as_u64().unwrap() as u8;
+            let mut ma = csl::MintAssets::new();
+            for m in op["assets"].as_array().unwrap() {
+                let amt = if m["amt"]["neg"].as_bool().unwrap_or(false) { csl::Int::new_negative(&bn_of(&m["amt"]["mag_n"])) } else { csl::Int::new(&bn_of(&m["amt"]["mag_n"])) };
+                ma.insert(&csl::AssetName::new(get_bytes(&m["n"])).unwrap(), &amt)?;
+            }
+            st.tb.set_mint_asset(&mk::pubkey_script(k), &ma)?;
+            if !st.mint_signers.contains(&k) { st.mint_signers.push(k); }
+        }
+        // the whole mint replaced through the older entry point (a Mint value plus its native scripts); logged as SetMint with no redeemer
+        "SetMintLegacy" => {
+            let mut mint = csl::Mint::new();
+            let mut scripts = csl::NativeScripts::new();
+            let mut ks: Vec<u8> = vec![];
+            let mut per: BTreeMap<u8, csl::MintAssets> = BTreeMap::new();
+            for m in op["mints"].as_array().unwrap() {
+                let k = m["mp"].as_u64().unwrap() as u8;
+                let amt = if m["amt"]["neg"].as_bool().unwrap_or(false) { csl::Int::new_negative(&bn_of(&m["amt"]["mag_n"])) } else { csl::Int::new(&bn_of(&m["amt"]["mag_n"])) };
+                let e = per.entry(k).or_insert_with(csl::MintAssets::new);
+                e.insert(&csl::AssetName::new(get_bytes(&m["n"])).unwrap(), &amt)?;
+                if !ks.contains(&k) { ks.push(k); scripts.add(&mk::pubkey_script(k)); }
+            }
+            for k in ks.iter() { mint.insert(&mk::pubkey_script(*k).hash(), &per[k]); }
+            st.tb.set_mint(&mint, &scripts)?;
+            res.insert("attach".into(), json!([]));
+            st.mint_signers = ks;
+        }
+        "RemoveMint" => { st.tb.remove_mint_builder(); st.mint_signers.clear(); res.insert("attach".into(), json!([])); }
+        "RemoveCerts" => { st.tb.remove_certs(); st.cert_signers.clear(); res.insert("attach".into(), json!([])); }
+        "RemoveWithdrawals" => { st.tb.remove_withdrawals(); st.wd_signers.clear(); res.insert("attach".into(), json!([])); }
+        // ---- metadata entry points: each works on the auxiliary data the builder already holds
+        "AddMetadatum" => {
+            let label = bn_of(&op["label_n"]);
+            match op["how"].as_str().unwrap_or("text") {
+                "int" => st.tb.add_metadatum(&label, &csl::TransactionMetadatum::new_int(&csl::Int::new_negative(&bn_of(&op["v_n"])))),
+                "json" => st.tb.add_json_metadatum(&label, op["json"].as_str().unwrap().to_string())?,
+                "json_detailed" => st.tb.add_json_metadatum_with_schema(&label, op["json"].as_str().unwrap().to_string(), csl::MetadataJsonSchema::DetailedSchema)?,
+                "json_basic" => st.tb.add_json_metadatum_with_schema(&label, op["json"].as_str().unwrap().to_string(), csl::MetadataJsonSchema::BasicConversions)?,
+                _ => st.tb.add_metadatum(&label, &csl::TransactionMetadatum::new_text("y".repeat(op["len"].as_u64().unwrap_or(3) as usize))?),
+            }
+        }
+        // auxiliary data that also holds scripts (they are hashed with the metadata, and are no witnesses)
+        "SetAuxScripts" => {
+            let mut aux = st.tb.get_auxiliary_data().unwrap_or(csl::AuxiliaryData::new());
+            let mut ns = csl::NativeScripts::new();
+            for k in op["native"].as_array().cloned().unwrap_or_default() { ns.add(&mk::pubkey_script(k.as_u64().unwrap() as u8)); }
+            if ns.len() > 0 { aux.set_native_scripts(&ns); }
+            let mut ps = csl::PlutusScripts::new();
+            for sid in op["plutus"].as_array().cloned().unwrap_or_default() { ps.add(&pscript(sid.as_u64().unwrap() as u8)); }
+            if ps.len() > 0 { aux.set_plutus_scripts(&ps); }
+            st.tb.set_auxiliary_data(&aux);
+        }
+        "RemoveAux" => st.tb.remove_auxiliary_data(),
+        "SetTtl32" => st.tb.set_ttl(op["v"].as_u64().unwrap() as u32),
+        "SetValidityStart32" => st.tb.set_validity_start_interval(op["v"].as_u64().unwrap() as u32),
+        "RemoveTtl" => st.tb.remove_ttl(),
+        "RemoveValidityStart" => st.tb.remove_validity_start_interval(),
+        "RemoveCollateralReturn" => st.tb.remove_collateral_return(),
+        "RemoveTotalCollateral" => st.tb.remove_total_collateral(),
+        "SetScriptDataHash" => st.tb.set_script_data_hash(&csl::ScriptDataHash::from_bytes(vec![op["v"].as_u64().unwrap_or(1) as u8; 32]).unwrap()),
+        "RemoveScriptDataHash" => st.tb.remove_script_data_hash(),
+        "AddChangeWithDatum" => {
+            let d = if let Some(h) = op["datum"].get("hash") { csl::OutputDatum::new_data_hash(&csl::hash_plutus_data(&pdata(h.as_u64().unwrap()))) } else { csl::OutputDatum::new_data(&pdata(op["datum"]["inline"].as_u64().unwrap_or(1))) };
+            res.insert("v".into(), J::Bool(st.tb.add_change_if_needed_with_datum(&mk::addr(&op["to"]), &d)?));
+        }
         _ => return Err(csl::JsError::from_str(&format!("harness: unknown op {}", name))),
     }
     Ok(res)
@@ -466,7 +566,13 @@ fn sign(st: &St, tx: &csl::Transaction) -> Result<Vec<u8>, csl::JsError> {
     let ins = body.inputs();
     for i in 0..ins.len() { add_owner(&ins.get(i), &mut vk, &mut by); }
     if let Some(col) = body.collateral() { for i in 0..col.len() { add_owner(&col.get(i), &mut vk, &mut by); } }
-    for k in st.cert_signers.iter().chain(st.wd_signers.iter()).chain(st.mint_signers.iter()).chain(st.req_signers.iter())
+    // native mint policies: read back from the builder (a mint-with-output call that fails on its output has already added its mint)
+    let mut mint_signers: Vec<u8> = vec![];
+    if let Some(ns) = st.tb.get_mint_scripts() {
+        for i in 0..ns.len() { mint_signers.extend(mk::native_leaves(&ns.get(i))); }
+    }
+    let _ = &st.mint_signers;
+    for k in st.cert_signers.iter().chain(st.wd_signers.iter()).chain(mint_signers.iter()).chain(st.req_signers.iter())
         .chain(st.script_signers.iter()).chain(st.vote_signers.iter()) { vk.insert(*k); }
     let mut ft = csl::FixedTransaction::from_bytes(tx.to_bytes())?;
     for k in vk.iter() { ft.sign_and_add_vkey_signature(&mk::sk(*k))?; }
@@ -480,6 +586,16 @@ fn run_minada(out: &mut Out, sc: usize, s: &J) {
             Outcome::Ok(o) => {
                 let cpb = bn_of(&m["cpb_n"]);
                 let r = call(|| csl::min_ada_for_output(&o, &csl::DataCost::new_coins_per_byte(&cpb))).to_json(|c| obj(vec![("v_n", jbn(&c))]));
+                // the same output made by the output builder, which fills in the least coin the output needs
+                let dc = csl::DataCost::new_coins_per_byte(&cpb);
+                let ob = call(|| {
+                    let mut b = csl::TransactionOutputBuilder::new().with_address(&o.address());
+                    if let Some(h) = o.data_hash() { b = b.with_data_hash(&h); }
+                    if let Some(d) = o.plutus_data() { b = b.with_plutus_data(&d); }
+                    if let Some(r) = o.script_ref() { b = b.with_script_ref(&r); }
+                    b.next()?.with_asset_and_min_required_coin_by_utxo_cost(&o.amount().multiasset().unwrap_or(csl::MultiAsset::new()), &dc)?.build()
+                }).to_json(|x| obj(vec![("bytes", jbytes(&x.to_bytes()))]));
+                out.ev(json!({"ev": "OutMin", "sc": sc, "cpb_n": m["cpb_n"], "r": ob}));
                 json!({"ev": "MinAda", "sc": sc, "out": jbytes(&o.to_bytes()), "cpb_n": m["cpb_n"], "r": r})
             }
             _ => json!({"ev": "SetupErr", "sc": sc}),
@@ -579,7 +695,9 @@ pub fn run_one(out: &mut Out, sc: usize, s: &J) {
         let outs = body.outputs();
         if outs.len() == 0 { return; }
         let mut ops: Vec<J> = s["ops"].as_array().unwrap().iter().filter(|o| !matches!(o["op"].as_str().unwrap_or(""),
-            "AddOutput" | "AddChange" | "AddInputsFromAndChange" | "AddInputsFromAndChangeWithCollateralReturn" | "Build" | "BuildAgain" | "SetFee" | "SetMinFee")).cloned().collect();
+            "AddOutput" | "AddChange" | "AddChangeWithDatum" | "AddInputsFromAndChange" | "AddInputsFromAndChangeWithCollateralReturn" | "Build" | "BuildAgain" | "SetFee" | "SetMinFee")).cloned().collect();
+        // (the mint of a mint-with-output call stays, its output comes back with the others)
+        for o in ops.iter_mut() { if o["op"] == "AddMintAssetAndOutput" { o["op"] = json!("AddMintAsset"); } }
         for i in 0..outs.len() { ops.push(json!({"op": "AddOutputRaw", "bytes": jbytes(&outs.get(i).to_bytes()), "plus_n": jn(if i + 1 == outs.len() { delta } else { 0 })})); }
         ops.push(json!({"op": "SetFee", "n": jn(fee - delta)}));
         ops.push(json!({"op": "Build"}));
@@ -628,7 +746,7 @@ fn run_pass(out: &mut Out, sc: usize, s: &J) -> Option<(csl::Transaction, usize)
     // script table (hash re-checked by the orchestrator with hashlib): Plutus ids 1..6, native ids 1..12; datum table
     let mut scripts: Vec<J> = (1u8..=6).map(|sid| { let ps = pscript(sid); json!({"id": sid, "kind": "plutus", "lang": ps.language_version().kind() as u64 + 1, "bytes": jbytes(&ps.bytes()), "hash": jbytes(&ps.hash().to_bytes())}) }).collect();
     scripts.push({ let ns = any2_script(13); json!({"id": 113, "kind": "native", "lang": 0, "bytes": jbytes(&ns.to_bytes()), "hash": jbytes(&ns.hash().to_bytes())}) });
-    scripts.extend((1u8..=12).map(|k| { let ns = mk::pubkey_script(k); json!({"id": k, "kind": "native", "lang": 0, "bytes": jbytes(&ns.to_bytes()), "hash": jbytes(&ns.hash().to_bytes())}) }));
+    scripts.extend((1u8..=12).chain(21u8..=24).map(|k| { let ns = mk::pubkey_script(k); json!({"id": k, "kind": "native", "lang": 0, "bytes": jbytes(&ns.to_bytes()), "hash": jbytes(&ns.hash().to_bytes())}) }));
     out.ev(json!({"ev": "Reset", "sc": sc, "pp": s["pp"], "utxo": env_j, "keys": keys, "byron": byr, "scripts": scripts}));
     let _ = (&st.vkeys, &st.byrons);
     for (i, op) in s["ops"].as_array().unwrap().iter().enumerate() {
@@ -663,7 +781,7 @@ fn run_pass(out: &mut Out, sc: usize, s: &J) -> Option<(csl::Transaction, usize)
             continue;
         }
         let r = call(|| apply(&mut st, op)).to_json(|m| m);
-        if matches!(name, "AddChange" | "AddInputsFromAndChange" | "AddInputsFromAndChangeWithCollateralReturn") { balanced_ok = r.get("ok").is_some(); }
+        if matches!(name, "AddChange" | "AddChangeWithDatum" | "AddInputsFromAndChange" | "AddInputsFromAndChangeWithCollateralReturn") { balanced_ok = r.get("ok").is_some(); }
         // the op is logged with its arguments resolved to wire values where the validator needs them
         let mut ev = json!({"ev": "Op", "sc": sc, "i": i, "op": name, "r": r});
         for k in ["n", "pct_n", "langs"] { if let Some(v) = op.get(k) { ev[k] = v.clone(); } }
@@ -692,13 +810,16 @@ pub fn gen(rng: &mut Rng) -> J {
                     "kd_n": jn(2_000_000), "pd_n": jn(500_000_000), "prefer_pure_change": rng.chance(1, 4), "no_burn": rng.chance(1, 4)});
     let nu = 1 + rng.below(5);
     let mut utxo = vec![];
+    let one_tx = rng.chance(1, 5);
     for u in 1..=nu {
         let kind = *rng.pick(&["ent", "ent", "base", "byron", "ptr"]);
         let many = rng.chance(1, 8);
         let na = if rng.chance(1, 3) { 1 + rng.below(if many { 40 } else { 4 }) } else { 0 };
         let wc = width_coin(rng);
         // owners overlap: a few key ids shared between UTxOs
-        utxo.push(json!({"u": u, "ix": rng.below(3), "addr": {"kind": kind, "k": 1 + rng.below(4)}, "value": rvalue(rng, wc, na)}));
+        let mut e = json!({"u": u, "ix": rng.below(3), "addr": {"kind": kind, "k": 1 + rng.below(4)}, "value": rvalue(rng, wc, na)});
+        if one_tx { e["tx"] = json!(9); e["ix"] = json!([256u64, 1, 65536, 255, 4294967295, 0][u as usize % 6]); }
+        utxo.push(e);
     }
     let mut ops = vec![];
     // inputs: all explicit / all by selection / mixed (some explicit, then selection over ALL of them, which may re-offer spent ones)
@@ -706,6 +827,8 @@ pub fn gen(rng: &mut Rng) -> J {
     let select = mode >= 2;
     if mode < 2 { for u in 1..=nu { ops.push(json!({"op": "AddInput", "u": u})); } }
     if mode == 3 { for u in 1..=nu { if rng.chance(1, 2) { ops.push(json!({"op": "AddInput", "u": u})); } } }
+    // the older kind-specific entry points (add_key_input / add_bootstrap_input, on the inputs builder or on the transaction builder)
+    if rng.chance(1, 5) { for o in ops.iter_mut() { if rng.chance(1, 2) { o["via"] = json!(*rng.pick(&["tb", "ib"])); } } }
     let no = rng.below(3);
     for _ in 0..no {
         // mostly small pure-ADA outputs; sometimes asset bundles (also large ones) and coins of every width
@@ -742,12 +865,49 @@ pub fn gen(rng: &mut Rng) -> J {
         let mut mints = vec![json!({"mp": 9, "n": [66], "amt": {"neg": burn, "mag_n": jn(amt)}})];
         // several additions for one asset under one witness: accumulating, or cancelling to zero (which must never be emitted)
         match rng.below(6) { 0 => mints.push(json!({"mp": 9, "n": [66], "amt": {"neg": !burn, "mag_n": jn(amt)}})), 1 => mints.push(json!({"mp": 9, "n": [66], "amt": {"neg": burn, "mag_n": jn(1 + rng.below(9))}})),
-                             2 => mints.push(json!({"mp": 9, "n": [67, 68], "amt": {"neg": false, "mag_n": jn(3)}})), _ => {} }
+                             2 => mints.push(json!({"mp": 9, "n": [67, 68], "amt": {"neg": false, "mag_n": jn(3)}})),
+                             // further policies (also compound native scripts) whose asset names differ from the first one's
+                             3 => { mints.push(json!({"mp": *rng.pick(&[10u64, 11, 21, 23]), "n": [70], "amt": {"neg": false, "mag_n": jn(20)}}));
+                                    if rng.chance(1, 2) { mints.push(json!({"mp": *rng.pick(&[12u64, 22, 24]), "n": jbytes(&rng.bytes(3)), "amt": {"neg": false, "mag_n": jn(1 + rng.below(1 << 33))}})); } }
+                             _ => {} }
         ops.push(json!({"op": "SetMint", "mints": mints}));
+    }
+    if rng.chance(1, 6) {
+        // the older mint entry points: one asset at a time, a policy's assets replaced, the whole mint replaced, mint with an output
+        // that receives the minted asset (coin given, or the minimum the builder computes); also on top of an earlier SetMint
+        let k = 9 + rng.below(3);
+        let amt = 1 + rng.below(50);
+        let nm: Vec<u8> = match rng.below(3) { 0 => vec![66], 1 => vec![], _ => vec![9; 32] };
+        for _ in 0..1 + rng.below(3) {
+            match rng.below(7) {
+                0 => ops.push(json!({"op": "AddMintAsset", "mp": k, "n": jbytes(&nm), "amt": {"neg": false, "mag_n": jn(amt)}})),
+                1 => { // burn: the asset must be among the inputs
+                    utxo[0]["value"]["assets"].as_array_mut().unwrap().push(json!({"mp": k, "n": jbytes(&nm), "q_n": jn(amt + rng.below(3))}));
+                    ops.push(json!({"op": "AddMintAsset", "mp": k, "n": jbytes(&nm), "amt": {"neg": true, "mag_n": jn(amt)}})); }
+                2 => ops.push(json!({"op": "SetMintAsset", "mp": k, "assets": [{"n": jbytes(&nm), "amt": {"neg": false, "mag_n": jn(amt)}}, {"n": [1, 2], "amt": {"neg": false, "mag_n": jn(*rng.pick(&[1u64, 1 << 32, u64::MAX >> 1]))}}]})),
+                3 => ops.push(json!({"op": "SetMintLegacy", "mints": [{"mp": k, "n": jbytes(&nm), "amt": {"neg": false, "mag_n": jn(amt)}}, {"mp": 9 + (k + 1) % 3, "n": [5], "amt": {"neg": false, "mag_n": jn(7)}}]})),
+                4 => { let mut o = json!({"op": "AddMintAssetAndOutput", "mp": k, "n": jbytes(&nm), "amt": {"neg": false, "mag_n": jn(*rng.pick(&[1u64, amt, 1 << 32, u64::MAX >> 2]))}, "to": {"kind": *rng.pick(&["ent", "base", "byron"]), "k": 10 + rng.below(3)},
+                                      "coin_n": jn(*rng.pick(&[1_000_000u64, 1_200_000, 2_000_000, 900_000, 5_000_000_000]))});
+                       match rng.below(4) { 0 => { o["datum"] = json!({"hash": rng.below(100)}); } 1 => { o["datum"] = json!({"inline": rng.below(100000)}); } _ => {} }
+                       ops.push(o); }
+                5 => { let mut o = json!({"op": "AddMintAssetAndOutput", "mp": k, "n": jbytes(&nm), "amt": {"neg": false, "mag_n": jn(*rng.pick(&[1u64, amt, 255, 65536, 1 << 32, u64::MAX >> 2]))}, "to": {"kind": *rng.pick(&["ent", "base", "byron", "ptr"]), "k": 10 + rng.below(3)}});
+                       match rng.below(5) { 0 => { o["datum"] = json!({"hash": rng.below(100)}); } 1 => { o["datum"] = json!({"inline": rng.below(100000)}); } 2 => { o["ref_script"] = json!(1 + rng.below(12)); } _ => {} }
+                       ops.push(o); }
+                _ => ops.push(json!({"op": "RemoveMint"})),
+            }
+        }
     }
     if rng.chance(1, 5) {
         let np = 1 + rng.below(2);
-        ops.push(json!({"op": "SetProposals", "props": (0..np).map(|i| json!({"dep_n": jn(*rng.pick(&[0u64, 1_000_000, 100_000_000])), "cred": {"k": 7 + i}})).collect::<Vec<_>>()}));
+        let mut props: Vec<J> = (0..np).map(|i| json!({"dep_n": jn(*rng.pick(&[0u64, 1_000_000, 100_000_000])), "cred": {"k": 7 + i}, "act": rng.below(8), "add": [3, 1, 2], "rm": [4, 6, 5]})).collect();
+        match rng.below(6) {
+            // the same proposal twice; two proposals that differ only in the ORDER in which set members were handed over
+            0 => { let p = props[0].clone(); props.push(p); }
+            1 => { let mut p = props[0].clone(); p["act"] = json!(4); props[0] = p.clone(); p["rm"] = json!([6, 4, 5]); props.push(p); }
+            2 => { let mut p = props[0].clone(); p["act"] = json!(4); props[0] = p.clone(); p["add"] = json!([1, 2, 3]); props.push(p); }
+            _ => {}
+        }
+        ops.push(json!({"op": "SetProposals", "props": props}));
     }
     if rng.chance(1, 6) { ops.push(json!({"op": "SetDonation", "n": jn(1 + rng.below(3_000_000))})); ops.push(json!({"op": "SetTreasury", "n": jn(1_000_000_000)})); }
     if rng.chance(1, 5) { ops.push(json!({"op": "AddRequiredSigner", "k": 1 + rng.below(12)})); }
@@ -757,7 +917,30 @@ pub fn gen(rng: &mut Rng) -> J {
         // set again: the same content in the other layout, or other content
         match rng.below(5) { 0 => ops.push(json!({"op": "SetAux", "label_n": jn(label), "len": len, "alonzo": !alonzo})), 1 => ops.push(json!({"op": "SetAux", "label_n": jn(label + 1), "len": len, "alonzo": alonzo})), _ => {} }
     }
+    if rng.chance(1, 6) {
+        // metadata one entry at a time (typed, or from JSON under each schema), on top of whatever auxiliary data is there; scripts
+        // inside the auxiliary data; auxiliary data removed again
+        for _ in 0..1 + rng.below(3) {
+            let label = *rng.pick(&[0u64, 1, 721, 1 << 32, u64::MAX]);
+            match rng.below(8) {
+                0 => ops.push(json!({"op": "AddMetadatum", "label_n": jn(label), "how": "text", "len": 1 + rng.below(64)})),
+                1 => ops.push(json!({"op": "AddMetadatum", "label_n": jn(label), "how": "int", "v_n": jn(rng.edge_u64())})),
+                2 => ops.push(json!({"op": "AddMetadatum", "label_n": jn(label), "how": "json", "json": *rng.pick(&["{\"a\":[1,2,{\"b\":\"c\"}]}", "\"0x00ff\"", "[]", "{\"5\":-7}"])})),
+                3 => ops.push(json!({"op": "AddMetadatum", "label_n": jn(label), "how": "json_basic", "json": *rng.pick(&["{\"0xab\":\"0xcd\",\"7\":[1]}", "\"0x00ff\"", "{\"5\":-7}"])})),
+                4 => ops.push(json!({"op": "AddMetadatum", "label_n": jn(label), "how": "json_detailed", "json": *rng.pick(&["{\"map\":[{\"k\":{\"int\":1},\"v\":{\"bytes\":\"00ff\"}}]}", "{\"list\":[{\"string\":\"s\"},{\"int\":-5}]}"])})),
+                5 => ops.push(json!({"op": "SetAuxScripts", "native": [1 + rng.below(12)], "plutus": if rng.chance(1, 2) { vec![1 + rng.below(6)] } else { vec![] }})),
+                6 => ops.push(json!({"op": "RemoveAux"})),
+                _ => ops.push(json!({"op": "SetAux", "label_n": jn(label), "len": 1 + rng.below(60), "alonzo": rng.chance(1, 2)})),
+            }
+        }
+    }
     if rng.chance(1, 5) { ops.push(json!({"op": "SetTtl", "n": jn(rng.edge_u64())})); }
+    if rng.chance(1, 8) {
+        match rng.below(5) { 0 => ops.push(json!({"op": "SetTtl32", "v": *rng.pick(&[0u64, 23, 24, 65535, 65536, u32::MAX as u64])})), 1 => ops.push(json!({"op": "SetValidityStart32", "v": *rng.pick(&[0u64, 255, 256, u32::MAX as u64])})),
+                             2 => ops.push(json!({"op": "SetValidityStart", "n": jn(rng.edge_u64())})), 3 => ops.push(json!({"op": "RemoveTtl"})), _ => ops.push(json!({"op": "RemoveValidityStart"})) }
+    }
+    if rng.chance(1, 12) && ops.iter().any(|o| o["op"] == "SetCerts") { ops.push(json!({"op": "RemoveCerts"})); }
+    if rng.chance(1, 12) && ops.iter().any(|o| o["op"] == "SetWithdrawals") { ops.push(json!({"op": "RemoveWithdrawals"})); }
     if rng.chance(1, 8) { ops.push(json!({"op": "SetMinFee", "n": jn(150_000 + rng.below(400_000))})); }
     // collateral: inputs (pure ADA or asset-carrying), then one of the three helpers (before or after balancing)
     let mut col_after: Vec<J> = vec![];
@@ -822,7 +1005,8 @@ pub fn gen(rng: &mut Rng) -> J {
     } else if rng.chance(1, 10) {
         ops.push(json!({"op": "SetFee", "n": jn(200_000 + rng.below(300_000))}));
     } else {
-        ops.push(json!({"op": "AddChange", "to": to}));
+        if rng.chance(1, 8) { ops.push(json!({"op": "AddChangeWithDatum", "to": to, "datum": if rng.chance(1, 2) { json!({"hash": rng.below(100)}) } else { json!({"inline": rng.below(1 << 40)}) }})); }
+        else { ops.push(json!({"op": "AddChange", "to": to})); }
         // the caller keeps working on the builder after balancing succeeded: whatever a validating build still produces must obey the rules
         if rng.chance(1, 7) {
             match rng.below(6) {
@@ -836,6 +1020,7 @@ pub fn gen(rng: &mut Rng) -> J {
         }
     }
     ops.extend(col_after);
+    if col && rng.chance(1, 10) { ops.push(json!({"op": *rng.pick(&["RemoveCollateralReturn", "RemoveTotalCollateral"])})); }
     ops.push(json!({"op": "Build"}));
     if rng.chance(1, 4) { ops.push(json!({"op": "BuildAgain"})); }
     let mut scn = json!({"pp": pp, "utxo": utxo, "ops": ops});
@@ -850,7 +1035,14 @@ pub fn gen_plutus(rng: &mut Rng) -> J {
     let mut ops: Vec<J> = vec![];
     let mut next_u = 1u64;
     let mut rid = 100u64;
-    let mut new_u = |utxo: &mut Vec<J>, mut e: J, rng: &mut Rng| -> u64 { let u = next_u; next_u += 1; e["u"] = json!(u); e["tx"] = json!((u * 7) % 41 + 1); e["ix"] = json!(rng.below(4)); utxo.push(e); u };
+    // a third of the scenarios: every output comes from ONE transaction, with indices on both sides of the byte boundaries (the
+    // ledger orders outpoints by transaction id, then NUMERICALLY by index)
+    let one_tx = rng.chance(1, 3);
+    const WIDE_IX: [u64; 14] = [3, 256, 1, 65536, 255, 7, 257, 65535, 2, 4294967295, 0, 1 << 24, 512, 258];
+    let mut new_u = |utxo: &mut Vec<J>, mut e: J, rng: &mut Rng| -> u64 { let u = next_u; next_u += 1; e["u"] = json!(u);
+        if one_tx { e["tx"] = json!(5); e["ix"] = json!(if (u as usize) < WIDE_IX.len() { WIDE_IX[u as usize] } else { 1000 + u }); }
+        else { e["tx"] = json!((u * 7) % 41 + 1); e["ix"] = json!(rng.below(4)); }
+        utxo.push(e); u };
     let ex = |rng: &mut Rng| json!([rng.below(2_000_000), rng.below(500_000_000)]);
     // funding and collateral
     // sometimes the spent funding output itself holds a reference script: the caller declares it (with its size) as a script
@@ -902,10 +1094,11 @@ pub fn gen_plutus(rng: &mut Rng) -> J {
         fixups.push(json!({"op": "AddInput", "u": u}));
     }
     if rng.chance(1, 3) {
-        let k = 3 + rng.below(3);
+        // (ids above 20: compound scripts - nested all / any / n-of-k with time locks around the signature leaves)
+        let k = if rng.chance(1, 3) { 21 + rng.below(4) } else { 3 + rng.below(3) };
         let u = new_u(&mut utxo, json!({"addr": {"kind": "script_ent", "k": k}, "value": {"coin_n": jn(3_000_000), "assets": []}}), rng);
         let script = if rng.chance(1, 3) { let r = new_u(&mut utxo, json!({"addr": {"kind": "ent", "k": 9}, "value": {"coin_n": jn(20_000_000), "assets": []}, "ref_script": {"native": k}}), rng); json!({"ref": r}) } else { json!("wit") };
-        ops.push(json!({"op": "AddNativeInput", "u": u, "script": script}));
+        ops.push(json!({"op": "AddNativeInput", "u": u, "script": script, "utxo": rng.chance(1, 4)}));
     }
     if rng.chance(1, 5) {
         // two outputs locked by the same any-of script, spent with different declared signers
@@ -940,7 +1133,7 @@ pub fn gen_plutus(rng: &mut Rng) -> J {
             if rng.chance(1, 10) { certs.push(json!({"k": kind, "g": true, "pool": 20 + i, "coin_n": jn(2_000_000), "cred2": {"k": 8}, "plain_script": 1 + rng.below(5)})); continue; }
             match rng.below(3) {
                 0 => { let sid = 1 + rng.below(5); rid += 1; certs.push(json!({"k": kind, "g": true, "pool": 20 + i, "coin_n": jn(2_000_000), "pw": {"s": sid, "rid": rid, "script": src[&sid], "datum": "none", "ex": ex(rng)}})); }
-                1 => certs.push(json!({"k": kind, "g": true, "pool": 20 + i, "coin_n": jn(2_000_000), "nw": 6 + i})),
+                1 => certs.push(json!({"k": kind, "g": true, "pool": 20 + i, "coin_n": jn(2_000_000), "nw": if rng.chance(1, 3) { 21 + (i + rng.below(4)) % 4 } else { 6 + i }})),
                 _ => certs.push(json!({"k": kind, "g": true, "pool": 20 + i, "coin_n": jn(2_000_000), "cred": {"k": 5 + i}})),
             }
         }
@@ -952,7 +1145,7 @@ pub fn gen_plutus(rng: &mut Rng) -> J {
         let mut wds = vec![];
         for i in 0..n {
             if rng.chance(1, 3) { wds.push(json!({"k": 6 + i, "amt_n": jn(100 + i)})); continue; }
-            if rng.chance(1, 3) { wds.push(json!({"nw": 1 + rng.below(12), "amt_n": jn(200 + i)})); continue; }
+            if rng.chance(1, 3) { wds.push(json!({"nw": if rng.chance(1, 3) { 21 + rng.below(4) } else { 1 + rng.below(12) }, "amt_n": jn(200 + i)})); continue; }
             let sid = sids.remove(rng.below(sids.len() as u64) as usize);
             rid += 1;
             wds.push(json!({"amt_n": jn(1000 + i), "pw": {"s": sid, "rid": rid, "script": src[&sid], "datum": "none", "ex": ex(rng)}}));
